@@ -127,6 +127,10 @@ var focusTable = map[string]focusEntry{
 	"LeastBytes.counters":        fe("balancers", "", "LeastBytes.Balance"),
 	"Hash.Hasher":                fe("balancers", "", "Hash.Balance"),
 	"ReferenceHash.Hasher":       fe("balancers", "", "ReferenceHash.Balance"),
+	"connPool.tls":               fe("transport", "transporttls", "Transport.RoundTrip"),
+	"Transport.TLS":              fe("transport", "transporttls", "Transport.RoundTrip"),
+	"Dialer.TLS":                 fe("transport", "dialertls", "Dialer.DialContext"),
+	"$kafka.bufferPool":          fe("conn", "conncompress", "Conn.WriteCompressedMessages"),
 	"$kafka.partitionsCache":     fe("writer", "writergrow", "Writer.WriteMessages"),
 	"snappy.writer.xerialWriter": fe("codecs", "recordset", "snappy.Codec.NewWriter"),
 	"Writer.writers":             fe("writer", "", "Writer.WriteMessages", "Writer.Close"),
@@ -257,7 +261,7 @@ func main() {
 
 	// the files register in alphabetical order: list in priority order
 	order := map[string]int{}
-	for i, n := range []string{"balancers", "codecs", "pagebuf", "batcherr", "connoffset", "readerversion", "readergroup", "writergrow", "recordset", "batch", "conn", "writer", "reader", "transport"} {
+	for i, n := range []string{"balancers", "codecs", "pagebuf", "batcherr", "connoffset", "readerversion", "readergroup", "writergrow", "recordset", "transporttls", "dialertls", "conncompress", "batch", "conn", "writer", "reader", "transport"} {
 		order[n] = i
 	}
 	sort.SliceStable(scenarios, func(i, j int) bool { return order[scenarios[i].name] < order[scenarios[j].name] })
